@@ -911,8 +911,14 @@ def install_external(ctl, world, ext):
 
         async def call():
             try:
-                await mr.set_event(t)
-                ctl.trace.append(("ext_set_event_ok", sid, t))
+                # set_event does not yield: a warning emitted while it runs (loguru record of level WARNING or a
+                # Python warning) is the warning about this event, whatever its wording
+                import warnings as _w
+                n0 = len(ctl.logs)
+                with _w.catch_warnings(record=True) as wl:
+                    _w.simplefilter("always")
+                    await mr.set_event(t)
+                ctl.trace.append(("ext_set_event_ok", sid, t, len(ctl.logs) > n0 or bool(wl)))
             except Exception as e:  # noqa
                 ctl.trace.append(("ext_set_event_err", sid, t, type(e).__name__, str(e)[:200]))
         world.loop.create_task(call())
